@@ -272,7 +272,7 @@ def tail_pad_after_greedy(t, v):
     return inner + fp[0]
 
 
-def offsets(t, v=None):
+def offsets(t, v=None, ops=PyOps):
     """byte offset of each item of a struct (for the given value; default: all variable parts empty).
     -> list of (item, offset) plus total size"""
     t = strip(t)
@@ -287,9 +287,9 @@ def offsets(t, v=None):
         if it['var']:
             if v is not None and f.name in v:
                 if it['kind'] == 'plain':
-                    off += len(encode(f.type, v[f.name], '<'))
+                    off += len(encode(f.type, v[f.name], '<', ops))
                 else:
-                    off += sum(1 if f.bytes else len(encode(f.type, x, '<')) for x in v[f.name])
+                    off += sum(1 if f.bytes else len(encode(f.type, x, '<', ops)) for x in v[f.name])
         else:
             off += it['size']
     return res, rup(off, al)
